@@ -1,0 +1,29 @@
+//go:build verif
+
+package server
+
+import (
+	"context"
+	"sync"
+
+	"github.com/sdcio/data-server/pkg/cache"
+	"github.com/sdcio/data-server/pkg/config"
+	"github.com/sdcio/data-server/pkg/datastore"
+	"github.com/sdcio/data-server/pkg/schema"
+)
+
+// NewVerif creates a Server around the given collaborators and datastores without starting any listener,
+// so that the RPC handlers can be called directly.
+func NewVerif(ctx context.Context, c *config.Config, sc schema.Client, cc cache.Client, dss map[string]*datastore.Datastore) *Server {
+	ctx, cancel := context.WithCancel(ctx)
+	return &Server{
+		config:       c,
+		ready:        true,
+		ctx:          ctx,
+		cfn:          cancel,
+		md:           &sync.RWMutex{},
+		datastores:   dss,
+		schemaClient: sc,
+		cacheClient:  cc,
+	}
+}
